@@ -108,7 +108,7 @@ EqV(m, a, b) ==
   ELSE IF a.t \in {"fn", "nat", "clo"} \/ b.t \in {"fn", "nat", "clo"} THEN "U"
   ELSE IF a.t # b.t THEN "F"
   ELSE CASE a.t = "nil" -> "T"
-         [] a.t = "int" -> (IF a.i = b.i THEN "T" ELSE "F")
+         [] a.t = "int" -> (IF a.i = b.i /\ a.e = b.e THEN "T" ELSE "F")
          [] a.t = "real" -> (IF a.i = b.i /\ a.e = b.e THEN "T" ELSE "F")
          [] a.t = "str" -> (IF a.s = b.s THEN "T" ELSE "F")
          [] a.t = "ref" ->
@@ -338,7 +338,7 @@ ReadBase(m, name) == IF FindCell(m, name) # 0 THEN m.cells[FindCell(m, name)]
 
 EvalCard(m, f) ==
   LET card == CardAt(m.pi, f.ix)  kd == card.k IN
-  CASE kd = "ScalarInt" -> Yield(m, VInt(card.i))
+  CASE kd = "ScalarInt" -> Yield(m, IF card.s = "big" THEN VBig(card.i) ELSE VInt(card.i))
     [] kd = "ScalarFloat" -> Yield(m, IF card.s # "" THEN VTok(card.s) ELSE VReal(card.i, card.e))
     [] kd = "StringLiteral" -> Yield(m, VStr(card.s, card.i))
     [] kd = "ScalarNil" -> Yield(m, VNil)
